@@ -893,8 +893,33 @@ def krome_reset(ctx, pkg, rule="R4"):
             # not in this method: in a private helper it calls?  then order and conditions are not decided here
             helpers = [n.func.attr for n in ast.walk(fn) if isinstance(n, ast.Call) and isinstance(n.func, ast.Attribute) and isinstance(n.func.value, ast.Name)
                        and n.func.value.id == "self" and _private(n.func.attr) and n.func.attr in net.methods]
-            if any(isinstance(c, ast.Call) and isinstance(c.func, ast.Attribute) and c.func.attr == "initialize" for h in helpers for c in ast.walk(net.methods[h])):
-                ctx.unrec(rule, f"Network.{mname}:initialize before reading", (NF, fn.lineno), "the format class is initialised inside a helper: order and conditions are not decided")
+            hs = [h for h in dict.fromkeys(helpers) if any(isinstance(c, ast.Call) and isinstance(c.func, ast.Attribute) and c.func.attr == "initialize" for c in ast.walk(net.methods[h]))]
+            if hs:
+                # the reset lives in a private helper: it must be called before the lines are read, and inside the helper it may depend
+                # on nothing but the existence of the format class -- e.g. not on whether this network has met the format before
+                h = hs[0]
+                hcall = min(n.lineno for n in ast.walk(fn) if isinstance(n, ast.Call) and isinstance(n.func, ast.Attribute) and n.func.attr == h)
+                hfl = Flow(net.methods[h], NF)
+                hinit = [f for f in hfl.facts if f.kind == "call" and f.target == "initialize" and f.value is not None and f.value[0] == "meth" and not f.value[3]]
+                if len(hinit) != 1 or not reads_lines:
+                    ctx.unrec(rule, f"Network.{mname}:initialize before reading", (NF, fn.lineno), "the format class is initialised inside a helper: order and conditions are not decided")
+                    continue
+                ctx.check(hcall < min(reads_lines), rule, f"Network.{mname}:initialize before reading", (NF, fn.lineno), f"the helper `{h}` that initialises the format class is called before any line is parsed")
+                f = hinit[0]
+                recv = simp(f.value[1])
+                extra = ["<loop>"] if f.loops else []
+                for g in f.guards:
+                    c, pol = norm_guard((simp(g[0]), g[1]))
+                    if c == recv or (c[0] == "cmp" and c[1] in (("Is",), ("Eq",)) and c[2] == (recv, ("const", None))):
+                        continue
+                    # membership of the format NAME in the table of known formats is the same test as "the class exists"
+                    if c[0] == "cmp" and c[1] == ("In",) and c[2][1][0] == "global":
+                        continue
+                    extra.append(_guard_text([(c, pol)]))
+                ctx.check(not extra, rule, f"Network.{mname}:initialize for every file", (NF, f.line),
+                          "the reset depends on nothing but the existence of the format class" if not extra else
+                          f"the per-file reset of the format class (in `{h}`) is skipped when `{extra[0]}` does not hold: directive state (@format, @common, @var) of the previous file "
+                          "decodes the next one", expected=f"{_src(recv)[:60]}.initialize() on every path that reads", found=" and ".join(extra))
                 continue
         ok = len(init_calls) == 1 and bool(reads_lines) and init_calls[0].line < min(reads_lines)
         ctx.check(ok, rule, f"Network.{mname}:initialize before reading", (NF, fn.lineno), "the format class is initialised before any line is parsed")
